@@ -124,6 +124,11 @@ func (s inputSpec) build() []byte {
 		}
 	case "text":
 		copy(b, srcSpec{Fam: "S4", Len: s.Len, Content: "text"}.build(nil))
+	case "mixed":
+		// an incompressible first half (stored raw) followed by compressible text
+		h := s.Len / 2
+		lcgFill(b[:h], uint64(s.Len)+3)
+		copy(b[h:], srcSpec{Fam: "S4", Len: s.Len - h, Content: "text"}.build(nil))
 	case "rep65536":
 		copy(b, srcSpec{Fam: "S4", Len: s.Len, Content: "rep65536"}.build(nil))
 	case "lcg":
